@@ -12,12 +12,20 @@ fn content_json(c: &ContentContainer<u64>) -> Value {
     json!({"items": v.iter().map(|(i, t)| json!([i, t])).collect::<Vec<_>>() })
 }
 
-fn strategies(nonempty: bool) -> Vec<ReportStrategy> {
-    let mut v = vec![ReportStrategy::OnWindowClose];
-    if nonempty {
-        v.push(ReportStrategy::NonEmptyContent);
-    }
-    v
+/// strategy list of a case: "strat":[["close"],["nonempty"],["periodic",2],["change"]]; without it OnWindowClose [+ NonEmptyContent]
+fn strat_json(case: &Value) -> Value {
+    if let Some(s) = case.get("strat") { return s.clone(); }
+    if case["nonempty"].as_bool().unwrap_or(false) { json!([["close"], ["nonempty"]]) } else { json!([["close"]]) }
+}
+
+fn strategies(strat: &Value) -> Vec<ReportStrategy> {
+    strat.as_array().unwrap().iter().map(|s| match s[0].as_str().unwrap() {
+        "close" => ReportStrategy::OnWindowClose,
+        "nonempty" => ReportStrategy::NonEmptyContent,
+        "periodic" => ReportStrategy::Periodic(s[1].as_u64().unwrap() as usize),
+        "change" => ReportStrategy::OnContentChange,
+        other => panic!("unknown strategy {other}"),
+    }).collect()
 }
 
 /// case: {"w","s","nonempty","kind","items":[[id,ts]..],"hasmodel","model":[..]}
@@ -25,18 +33,19 @@ fn run_case(out: &mut Out, run: &mut u64, case: &Value) {
     *run += 1;
     let w = case["w"].as_u64().unwrap() as usize;
     let s = case["s"].as_u64().unwrap() as usize;
-    let nonempty = case["nonempty"].as_bool().unwrap_or(false);
+    let strat = strat_json(case);
+    let nonempty = strat.as_array().unwrap().iter().any(|s| s[0] == "nonempty");
     let kind = case["kind"].as_str().unwrap_or("callback");
     let items: Vec<(u64, usize)> = case["items"].as_array().unwrap().iter()
         .map(|p| (p[0].as_u64().unwrap(), p[1].as_u64().unwrap() as usize)).collect();
     let hasmodel = case.get("hasmodel").and_then(|v| v.as_bool()).unwrap_or(false);
     let model = if hasmodel { case["model"].clone() } else { json!([]) };
-    out.ev(json!({"ev":"reset","run":*run,"kind":kind,"w":w,"s":s,"nonempty":nonempty,
+    out.ev(json!({"ev":"reset","run":*run,"kind":kind,"w":w,"s":s,"nonempty":nonempty,"strat":strat,
                   "hasmodel":hasmodel,"model":model,
                   "mflush": case.get("mflush").cloned().unwrap_or(json!({"items":[]})),"case":case}));
     let got: Arc<Mutex<Vec<Value>>> = Arc::new(Mutex::new(Vec::new()));
     let mut report = Report::new();
-    for st in strategies(nonempty) {
+    for st in strategies(&strat) {
         report.add(st);
     }
     match kind {
@@ -73,7 +82,7 @@ fn run_case(out: &mut Out, run: &mut u64, case: &Value) {
         }
         _ => {
             let mut win: WindowRunner<u64> = WindowRunner::new(
-                WindowSpec { width: w, slide: s, report_strategies: strategies(nonempty), tick: Tick::TimeDriven },
+                WindowSpec { width: w, slide: s, report_strategies: strategies(&strat), tick: Tick::TimeDriven },
                 "w".to_string(),
             );
             win.start_receiver();
@@ -118,8 +127,17 @@ fn gen_cases(seed: u64, n: u64, maxlen: u64) -> Vec<Value> {
             let id = if dup_items && k > 0 && rng.chance(1, 3) { rng.range(1, k as u64) } else { k as u64 + 1 };
             items.push(json!([id, ts]));
         }
-        let nonempty = rng.chance(1, 4);
-        cases.push(json!({"w":w,"s":s,"nonempty":nonempty,"kind":kinds[(i % 3) as usize],"items":items,"hasmodel":false,"model":[]}));
+        let strat = match rng.below(12) {
+            0 | 1 => json!([["close"], ["nonempty"]]),
+            2 => json!([["nonempty"], ["close"]]),
+            3 => json!([["close"], ["periodic", rng.range(1, 2 * s as u64 + 1)]]),
+            4 => json!([["periodic", rng.range(1, s as u64 + 2)]]),
+            5 => json!([["nonempty"]]),
+            6 => json!([["periodic", s], ["nonempty"], ["close"]]),
+            _ => json!([["close"]]),
+        };
+        let nonempty = strat.as_array().unwrap().iter().any(|x| x[0] == "nonempty");
+        cases.push(json!({"w":w,"s":s,"nonempty":nonempty,"strat":strat,"kind":kinds[(i % 3) as usize],"items":items,"hasmodel":false,"model":[]}));
     }
     cases
 }
